@@ -182,3 +182,25 @@ Proof.
     + rewrite firstn_length. now rewrite (Permutation_length Hperm).
 Qed.
 
+
+(** "sample everything": a sample size that is at least the input plus the tracked pairs (usize::MAX, say) gives the
+    input followed by every tracked pair, in the order the hash map yields them; and the result does not depend on
+    which such size it is.  (This is why the histories with sample sizes near usize::MAX, which the unary sizes of
+    this model cannot hold, are judged by `min (samples - |input|) |tracked|` alone.) *)
+Theorem fill_sample_saturates s order input :
+  (length input + length order <= ssamples s)%nat ->
+  sam_fill s order input = input ++ order.
+Proof.
+  intros Hle. unfold sam_fill.
+  destruct (Nat.leb (ssamples s) (length input)) eqn:E.
+  - apply Nat.leb_le in E.
+    assert (length order = 0)%nat as H0 by lia.
+    destruct order; [now rewrite app_nil_r | discriminate H0].
+  - apply Nat.leb_gt in E. f_equal. apply firstn_all2. lia.
+Qed.
+
+Theorem fill_sample_size_irrelevant s1 s2 order input :
+  (length input + length order <= ssamples s1)%nat ->
+  (length input + length order <= ssamples s2)%nat ->
+  sam_fill s1 order input = sam_fill s2 order input.
+Proof. intros H1 H2. now rewrite !fill_sample_saturates. Qed.
